@@ -150,3 +150,42 @@ func VerifC03Big() {
 	zz.Assert(ref.ok, "big:strict-parser-accepts")
 	zz.Reach("end")
 }
+
+// VerifC01Sandwich: channel message, then a message that must cancel running status (meta / F0 / F7 packet),
+// then a channel message with the same or another status: the third message must survive the round trip and the
+// written bytes must not use running status across the middle event.
+func VerifC01Sandwich() {
+	s := New()
+	s.NoRunningStatus = zz.Bool("norunningstatus")
+	var tr Track
+	st1, a1, b1 := zz.U8("st1"), zz.U8("a1"), zz.U8("b1")
+	zz.Assume(st1 >= 0x80 && st1 <= 0xEF && a1 < 0x80 && b1 < 0x80)
+	first := []byte{st1, a1, b1}
+	if st1&0xF0 == 0xC0 || st1&0xF0 == 0xD0 {
+		first = []byte{st1, a1}
+	}
+	tr.Add(uint32(zz.U8("d1")), first)
+	L := zz.Choice("midlen", 2)
+	switch zz.Choice("mid", 4) {
+	case 0:
+		typ := zz.U8("typ")
+		zz.Assume(typ < 0x80 && typ != 0x2F)
+		tr.Add(uint32(zz.U8("d2")), _MetaMessage(typ, zz.Bytes("p", L)))
+	case 1:
+		tr.Add(uint32(zz.U8("d2")), append([]byte{0xF0}, zz.Bytes("p", L)...))
+	case 2:
+		tr.Add(uint32(zz.U8("d2")), append([]byte{0xF7}, zz.Bytes("p", L)...))
+	case 3: // no middle event: plain running status between two channel messages
+	}
+	st3, a3, b3 := zz.U8("st3"), zz.U8("a3"), zz.U8("b3")
+	zz.Assume(st3 >= 0x80 && st3 <= 0xEF && a3 < 0x80 && b3 < 0x80)
+	third := []byte{st3, a3, b3}
+	if st3&0xF0 == 0xC0 || st3&0xF0 == 0xD0 {
+		third = []byte{st3, a3}
+	}
+	tr.Add(uint32(zz.U8("d3")), third)
+	tr.Close(0)
+	s.Add(tr)
+	c01roundtrip(s, "sandwich")
+	zz.Reach("end")
+}
